@@ -184,7 +184,7 @@ def check(fx, rep, tier):
 
     # ---------------------------------------------------------------- R02.2
     from ..mergemodel import MergeModel
-    from .c16 import check_absorption, check_diagonal, check_mirrors, check_usage_laws, usage_table
+    from .c16 import check_absorption, check_diagonal, check_idempotence, check_mirrors, check_usage_laws, usage_table
 
     class Re:
         def __init__(self, rep, rule):
@@ -210,6 +210,7 @@ def check(fx, rep, tier):
     if rep.anchor("R02.2", mm.ok, "; ".join(mm.problems) or "merge model"):
         check_mirrors(mm, r2)
         check_diagonal(mm, r2)
+        check_idempotence(mm, r2)
         usages, table = usage_table(fx, r2, "R02.2")
         if table is not None:
             check_usage_laws(fx, r2, "R02.2", usages, table, want_upper_bound=False)
